@@ -11,7 +11,8 @@ RULE = ("approximate_{pubo,qubo,puso,quso}_extrema on raw dicts (unsorted / repe
         "(tolerance 1e-9*sum|coef|), constant and empty models; anneal_temperature_range on boolean and spin models "
         "(dict and model objects) with admissible probability pairs including 0 and equal values, variable-free "
         "models, and (flagged class) stale models. Oracle: exact extrema from the reference truth table. "
-        "Non-trivial = model with >= 2 variables and >= 2 non-constant terms; distinct = digest of (function, type, terms)")
+        "Non-trivial = model with >= 2 variables and >= 2 non-constant terms; distinct = digest of (function, type, terms)"
+        ' Also: full-matrix style dicts with diagonal keys and both orientations, models scaled by 2^-70, exact-arithmetic coefficients (ints above 2^53, thirds, sevenths), single-scale models with two-digit equal probabilities, plain dicts whose variable-carrying terms cancel under two spellings, a second look after in-place edits.')
 TIERS = {"quick": {"shards": 8, "cases": 6000}, "thorough": {"shards": 16, "cases": 50000}}
 FLOOR_BASE = {"quick": 500, "thorough": 20000}    # case counts the floors below were calibrated for; the launcher scales them
 FN = {"approximate_pubo_extrema": ("bool", False), "approximate_qubo_extrema": ("bool", True),
